@@ -8,8 +8,8 @@ cp -r $w/_seed/* $d/ 2>/dev/null
 rm -f $d/demo $d/*.o $d/*.log $d/a.out
 find $d -type f -size +300k -delete
 find $d -type f -perm -u+x ! -name '*.sh' ! -name '*.py' -exec sh -c 'file "$1" | grep -q ELF && rm -f "$1"' _ {} \;
-( cd /verif && echo "== $p-$s @ $(git rev-parse --short HEAD)$(git diff --quiet -- sa || echo +dirty)" && python3 tools/seeded_all.py --all-props $p-$s ) >> /verif/seeded/ROUND3-ASBUILT.log 2>&1
-tail -n 1 /verif/seeded/ROUND3-ASBUILT.log
+( cd /verif && echo "== $p-$s @ $(git rev-parse --short HEAD)$(git diff --quiet -- sa || echo +dirty)" && python3 tools/seeded_all.py --all-props $p-$s ) >> /verif/seeded/ASBUILT-$s.log 2>&1
+tail -n 1 /verif/seeded/ASBUILT-$s.log
 /verif/tools/confirm_seed.sh $p-$s
 git -C /repo worktree remove --force $w 2>/dev/null; rm -rf $w
 ls $d
